@@ -63,6 +63,27 @@ type scenario struct {
 	Force    forcing    `json:"force"`
 	Seed     int64      `json:"seed"`
 	ShutAtUs int        `json:"shut,omitempty"` // shutdown class: Shutdown() is called this long after the start
+	// module lifecycle scenarios (classes modstop, stoptmo; run in a child process with module management on):
+	// a director goroutine executes Life in order; the stop function of module k submits the tasks StopSubs[k]
+	// (on its first run); the submitters Subs are launched by the director's `sub` ops only.
+	Life     []lifeOp `json:"life,omitempty"`
+	StopSubs [][]int  `json:"stopsubs,omitempty"`
+}
+
+// lifeOp is one step of the director of a lifecycle scenario.
+//
+//	sub n      launch submitter goroutine Subs[n]
+//	waitrun n  wait until n microtask functions / signalled sections are executing (at most 5 s)
+//	settmo n   set the module stop timeout to n ms
+//	stop n     Disable module n and ManageModules(): the module is stopped while the others keep running
+//	start n    Enable module n and ManageModules()
+//	sleep n    n µs
+//	quiet      wait until everything submitted so far has finished and the scheduler settled, then record the
+//	           global and the per-module counts
+//	shutdown   modules.Shutdown()
+type lifeOp struct {
+	Op string `json:"op"`
+	N  int    `json:"n,omitempty"`
 }
 
 // ---------------------------------------------------------------------------------------------
@@ -74,6 +95,7 @@ type rawEv struct {
 	tid  int
 	a, b int64
 	ch   any
+	s    string
 }
 
 type recorder struct {
@@ -88,8 +110,12 @@ type recorder struct {
 	frng      *rand.Rand
 	fmu       sync.Mutex
 	// measured
-	toks       int // conclusions completed (finished token offered) since the recording started
-	dips       int // counter observed below zero
+	// bracket around an operation on / a read of a module's microtask counter (held with mu by one goroutine)
+	modKind    string // "" | "inc" | "dec" | "chk"
+	modIdx     int
+	modOuter   bool // the goroutine held the mutex already (high priority: bracket around its own global increment)
+	toks       int  // conclusions completed (finished token offered) since the recording started
+	dips       int  // counter observed below zero
 	forcedHits int
 }
 
@@ -181,7 +207,12 @@ func (r *recorder) sched(kind string, a, b int64, ch any) {
 // linearisation. Blocking operations are logged before (send) or after (receive) they happen.
 func (r *recorder) sink(point string, args ...any) {
 	if !strings.HasPrefix(point, "mt:") && !strings.HasPrefix(point, "yield:mt:") {
-		return // hooks of other properties (C01/C05/C06/C07 share the package): not ours, must not touch a bracket
+		// hooks of other properties (C01/C05/C06/C07 share the package) must not touch a bracket; of the stop
+		// protocol's hooks the few around the module's microtask counter and the stop/start steps are used
+		if stopProtoPoints[point] {
+			r.stopProto(point, args...)
+		}
+		return
 	}
 	g := gid()
 	held := r.holder.Load() == g
@@ -194,10 +225,8 @@ func (r *recorder) sink(point string, args ...any) {
 	case "yield:mt:pre-inc":
 		keep = true
 	case "mt:begin":
-		if held { // high priority: closes the bracket around its own increment
-			r.add(rawEv{g: g, kind: "hinc", a: cntNow()})
-		}
-		r.add(rawEv{g: g, kind: "begin"})
+		// the begin event (and, for high priority, the own increment before it) was logged inside the bracket
+		// around the module increment, see stopProto; this hook only closes a high-priority bracket
 	case "mt:timeout-enqueue":
 		r.add(rawEv{g: g, kind: "tmoenq", a: cntNow()})
 	case "mt:timeout-wait":
@@ -212,8 +241,7 @@ func (r *recorder) sink(point string, args ...any) {
 		}
 		r.add(e)
 	case "yield:mt:conclude":
-		r.add(rawEv{g: g, kind: "moddec"})
-		keep = true
+		keep = true // the module decrement was logged inside its own bracket, see stopProto
 	case "mt:concluded":
 		c := cntNow()
 		if c < 0 {
@@ -267,6 +295,100 @@ func (r *recorder) sink(point string, args ...any) {
 	}
 }
 
+// stopProtoPoints are the hooks of the module stop protocol (placed for C05) that the C15 trace uses.
+var stopProtoPoints = map[string]bool{
+	"pre:inc:m": true, "pre:dec:m": true, "post": true, // bracket around AddInt32(m.microTaskCnt, ±1)
+	"pre:cFast": true,                                      // checkIfStopComplete begins
+	"mid:cM":    true, "mid:cCas": true, "post:fail": true, // … its read of the microtask counter and what followed
+	"pre:stopBegin": true, "pre:sFlag": true, "ev:sWake": true, "ev:sTimeout": true, "pre:sOffline": true, "pre:startBegin": true,
+}
+
+func modIndex(args []any) int {
+	if len(args) >= 1 {
+		if n, ok := args[0].(string); ok {
+			for i, mn := range modNames {
+				if mn == n {
+					return i
+				}
+			}
+		}
+	}
+	return -1
+}
+
+func modCnt(k int) int64 {
+	if k >= 0 && k < len(mods) {
+		return int64(mods[k].VerifMicroTaskCnt())
+	}
+	return -99999
+}
+
+// stopProto handles the stop-protocol hooks. Operations on a module's microtask counter are bracketed like the
+// ones on the global counter (hook before: take the mutex; hook after: log with the real value, release), so the
+// values in the log are exact and the log is a linearisation of both counters. The read of the counter by
+// checkIfStopComplete is bracketed from `mid:cM` to the next hook of the goroutine, which tells the outcome.
+func (r *recorder) stopProto(point string, args ...any) {
+	g := gid()
+	held := r.holder.Load() == g
+	switch point {
+	case "post", "post:fail", "mid:cCas":
+		if !held || r.modKind == "" {
+			return // closes a bracket of somebody else's protocol
+		}
+		k := r.modIdx
+		switch {
+		case r.modKind == "inc" && point == "post":
+			if r.modOuter { // high priority: the own increment of the global counter came first
+				r.add(rawEv{g: g, kind: "hinc", a: cntNow()})
+			}
+			r.add(rawEv{g: g, kind: "begin", a: modCnt(k), b: int64(k)})
+		case r.modKind == "dec" && point == "post":
+			r.add(rawEv{g: g, kind: "moddec", a: modCnt(k), b: int64(k)})
+		case r.modKind == "chk" && point == "mid:cCas":
+			r.add(rawEv{kind: "m:mcheck", a: 1, b: int64(k)})
+		case r.modKind == "chk" && point == "post:fail":
+			r.add(rawEv{kind: "m:mcheck", a: 0, b: int64(k)})
+		default:
+			return // not the hook that closes this bracket
+		}
+		r.modKind = ""
+		if !r.modOuter {
+			r.release(g)
+		}
+		return
+	}
+	k := modIndex(args)
+	if k < 0 {
+		return
+	}
+	switch point {
+	case "pre:inc:m", "pre:dec:m", "mid:cM":
+		r.acquire(g)
+		r.modKind, r.modIdx, r.modOuter = map[string]string{"pre:inc:m": "inc", "pre:dec:m": "dec", "mid:cM": "chk"}[point], k, held
+		return // keep the mutex
+	}
+	r.acquire(g)
+	switch point {
+	case "pre:cFast":
+		r.add(rawEv{g: g, kind: "stopchk", b: int64(k)})
+	case "pre:stopBegin":
+		r.add(rawEv{kind: "m:stop", b: int64(k)})
+	case "pre:sFlag":
+		r.add(rawEv{kind: "m:flag", b: int64(k)})
+	case "ev:sWake":
+		r.add(rawEv{kind: "m:wake", b: int64(k)})
+	case "ev:sTimeout":
+		r.add(rawEv{kind: "m:timeout", a: modCnt(k), b: int64(k)})
+	case "pre:sOffline":
+		r.add(rawEv{kind: "m:offline", b: int64(k)})
+	case "pre:startBegin":
+		r.add(rawEv{kind: "m:start", b: int64(k)})
+	}
+	if !held {
+		r.release(g)
+	}
+}
+
 // h logs a harness-side observation.
 func (r *recorder) h(kind string, tid int, a int64) {
 	g := gid()
@@ -275,6 +397,19 @@ func (r *recorder) h(kind string, tid int, a int64) {
 		return
 	}
 	r.add(rawEv{g: g, kind: "h:" + kind, tid: tid, a: a})
+	if !held {
+		r.mu.Unlock()
+	}
+}
+
+// hs logs a harness-side observation that carries a string (counter lists).
+func (r *recorder) hs(kind string, tid int, a int64, str string) {
+	g := gid()
+	held := r.holder.Load() == g
+	if !held && !r.hlock() {
+		return
+	}
+	r.add(rawEv{g: g, kind: "h:" + kind, tid: tid, a: a, s: str})
 	if !held {
 		r.mu.Unlock()
 	}
@@ -292,6 +427,12 @@ var (
 
 type panicVal struct{ tid int }
 
+// lifeMode: this process runs one lifecycle scenario (child process only).
+var (
+	lifeMode   bool
+	stopFnHook atomic.Value // of func(module index)
+)
+
 func boot() error {
 	bootOnce.Do(func() {
 		modules.SetStdErrReporting(false)
@@ -299,8 +440,27 @@ func boot() error {
 		// warnings stay enabled (failed Start* tasks log one): the log writer then asks the scheduler for its
 		// write trigger, which exercises the scheduler's "other" select branch; the adapter discards the lines
 		log.SetLogLevel(log.WarningLevel)
-		for _, n := range modNames {
-			mods = append(mods, modules.Register(n, nil, nil, nil))
+		for k, n := range modNames {
+			if lifeMode {
+				// lifecycle scenarios: every module has a stop function (it submits the microtasks the scenario
+				// prescribes) and module management is on, so that single modules can be stopped and restarted
+				k := k
+				m := modules.Register(n, nil, nil, func() error {
+					if f, ok := stopFnHook.Load().(func(int)); ok && f != nil {
+						f(k)
+					}
+					return nil
+				})
+				mods = append(mods, m)
+			} else {
+				mods = append(mods, modules.Register(n, nil, nil, nil))
+			}
+		}
+		if lifeMode {
+			modules.EnableModuleManagement(nil)
+			for _, m := range mods {
+				m.Enable()
+			}
 		}
 		modules.VerifSetSink(rec.sink)
 		if err := modules.Start(); err != nil {
@@ -448,6 +608,7 @@ func runScenario(sc *scenario) *runResult {
 	var wg sync.WaitGroup    // submitters
 	var fnWg sync.WaitGroup  // functions of Start* tasks
 	var lastEnd atomic.Int64 // unix nanos of the last function end
+	var running atomic.Int64 // functions / signalled sections executing right now (the harness's own gauge)
 	taskErrs := make([]error, len(sc.Tasks))
 	for i := range taskErrs {
 		taskErrs[i] = fmt.Errorf("task %d failed", i)
@@ -458,8 +619,10 @@ func runScenario(sc *scenario) *runResult {
 				defer fnWg.Done()
 			}
 			rec.h("fnbegin", tid, us())
+			running.Add(1)
 			sleepUs(t.RunUs)
-			rec.h("fnend", tid, 0)
+			running.Add(-1)
+			rec.h("fnend", tid, us())
 			lastEnd.Store(time.Now().UnixNano())
 			switch t.Out {
 			case 1:
@@ -470,10 +633,8 @@ func runScenario(sc *scenario) *runResult {
 			return nil
 		}
 	}
-	for _, sub := range sc.Subs {
-		wg.Add(1)
-		go func(sub []int) {
-			defer wg.Done()
+	runSub := func(sub []int) {
+		{
 			for _, tid := range sub {
 				t := sc.Tasks[tid]
 				sleepUs(t.PreUs)
@@ -521,8 +682,10 @@ func runScenario(sc *scenario) *runResult {
 						continue
 					}
 					rec.h("fnbegin", tid, us())
+					running.Add(1)
 					sleepUs(t.RunUs)
-					rec.h("fnend", tid, 0)
+					running.Add(-1)
+					rec.h("fnend", tid, us())
 					lastEnd.Store(time.Now().UnixNano())
 					n := t.Dones
 					if n < 1 {
@@ -554,9 +717,119 @@ func runScenario(sc *scenario) *runResult {
 							rec.h("doneret", tid, 0)
 						}
 					}
+					rec.h("sigend", tid, 0) // this goroutine is through with the task (what it does next is not the task's)
 				}
 			}
-		}(sub)
+		}
+	}
+	launch := func(sub []int) {
+		wg.Add(1)
+		go func() {
+			defer wg.Done()
+			runSub(sub)
+		}()
+	}
+	dirDone := make(chan struct{})
+	abort := make(chan struct{}) // closed by the director when something it waits for never happens
+	if len(sc.Life) == 0 {
+		for _, sub := range sc.Subs {
+			launch(sub)
+		}
+		close(dirDone)
+	} else {
+		// lifecycle scenario: the director stops and restarts single modules while microtasks are in flight
+		var launched atomic.Int64 // non-nil tasks handed to a submitter / a stop function so far
+		nonNil := func(sub []int) (n int64) {
+			for _, tid := range sub {
+				if sc.Tasks[tid].Mod >= 0 {
+					n++
+				}
+			}
+			return
+		}
+		var stopMu sync.Mutex
+		used := make([]bool, len(mods))
+		stopFnHook.Store(func(k int) {
+			stopMu.Lock()
+			first := !used[k]
+			used[k] = true
+			stopMu.Unlock()
+			if first && k < len(sc.StopSubs) && len(sc.StopSubs[k]) > 0 {
+				wg.Add(1)
+				defer wg.Done()
+				launched.Add(nonNil(sc.StopSubs[k]))
+				runSub(sc.StopSubs[k]) // the stop function is the submitter
+			}
+		})
+		go func() {
+			defer close(dirDone)
+		life:
+			for _, op := range sc.Life {
+				switch op.Op {
+				case "sub":
+					if op.N >= 0 && op.N < len(sc.Subs) {
+						launched.Add(nonNil(sc.Subs[op.N]))
+						launch(sc.Subs[op.N])
+					}
+				case "waitrun":
+					for end := time.Now().Add(5 * time.Second); running.Load() < int64(op.N) && time.Now().Before(end); {
+						time.Sleep(100 * time.Microsecond)
+					}
+				case "settmo":
+					modules.VerifSetStopTimeout(time.Duration(op.N) * time.Millisecond)
+					rec.h("settmo", -1, int64(op.N))
+				case "stop":
+					rec.h("modstop-call", op.N, us())
+					mods[op.N%len(mods)].Disable()
+					_ = modules.ManageModules()
+					rec.h("modstop-ret", op.N, us())
+				case "start":
+					rec.h("modstart-call", op.N, us())
+					mods[op.N%len(mods)].Enable()
+					_ = modules.ManageModules()
+					rec.h("modstart-ret", op.N, us())
+				case "sleep":
+					sleepUs(op.N)
+				case "quiet":
+					fin := make(chan struct{})
+					go func() {
+						wg.Wait()
+						fnWg.Wait()
+						close(fin)
+					}()
+					select {
+					case <-fin:
+					case <-time.After(20 * time.Second):
+						// something submitted never returned / never ran: the rest of the script is pointless
+						close(abort)
+						break life
+					}
+					settle := "ok"
+					if err := waitParked(15*time.Second, int(launched.Load())); err != nil {
+						settle = strings.ReplaceAll(err.Error(), " ", "_")
+					}
+					c, _ := modules.VerifMicroTasks()
+					var ms []string
+					for _, m := range mods {
+						ms = append(ms, strconv.Itoa(int(m.VerifMicroTaskCnt())))
+					}
+					rec.hs("quiet", -1, int64(c), strings.Join(ms, ",")+" settle="+settle)
+					if settle != "ok" {
+						break life // the counters are off for good: what follows would only repeat it (slowly)
+					}
+				case "shutdown":
+					rec.h("shutdown-call", -1, 0)
+					_ = modules.Shutdown()
+					rec.h("shutdown-ret", -1, 0)
+					res.shutMs = 0
+					if le := lastEnd.Load(); le > 0 {
+						if d := time.Since(time.Unix(0, le)); d > 0 {
+							res.shutMs = d.Milliseconds()
+						}
+					}
+				}
+			}
+		}()
 	}
 	var shutDone chan struct{}
 	if sc.Class == "shutdown" {
@@ -577,15 +850,23 @@ func runScenario(sc *scenario) *runResult {
 	}
 	allDone := make(chan struct{})
 	go func() {
+		<-dirDone
 		wg.Wait()
 		fnWg.Wait()
 		close(allDone)
 	}()
+	hangAfter := 20 * time.Second
+	if len(sc.Life) > 0 {
+		hangAfter = 60 * time.Second // stops that wait out a timeout of some seconds are reported, not cut off
+	}
 	select {
 	case <-allDone:
 		res.settle = waitParked(15*time.Second, wantToks)
 		res.parkedMs = parkedNoToken.Milliseconds()
-	case <-time.After(20 * time.Second):
+	case <-abort:
+		res.hang = true
+		res.settle = errors.New("hang")
+	case <-time.After(hangAfter):
 		// some call never returned (e.g. nothing is admitted any more): report, the process state is lost
 		res.hang = true
 		res.settle = errors.New("hang")
@@ -641,7 +922,11 @@ func canon(sc *scenario, res *runResult) []string {
 		if t.Var == 2 && t.Prio != 2 && t.DelayMs == 0 {
 			zd = 1 // Signal*MicroTask(0): documented "use the default", see the recorded finding
 		}
-		lines = append(lines, fmt.Sprintf("new %d %d %d %d %d", i, t.Prio, t.Var, nilm, zd))
+		md := 0
+		if t.Mod >= 0 {
+			md = t.Mod % len(modNames)
+		}
+		lines = append(lines, fmt.Sprintf("new %d %d %d %d %d %d", i, t.Prio, t.Var, nilm, zd, md))
 	}
 	// the scheduler of the previous case is still parked in its select after a "space" decision taken at
 	// count 0; with count 0 that decision is the same under the new limit
@@ -666,7 +951,7 @@ func canon(sc *scenario, res *runResult) []string {
 			}
 			ivs[e.g] = append(ivs[e.g], iv{i, len(evs), e.tid})
 			open[e.g] = len(ivs[e.g]) - 1
-		case "h:ret", "h:started", "h:signil", "h:doneret":
+		case "h:ret", "h:started", "h:signil", "h:doneret", "h:sigend":
 			if k, ok := open[e.g]; ok {
 				ivs[e.g][k].to = i
 				delete(open, e.g)
@@ -706,7 +991,11 @@ func canon(sc *scenario, res *runResult) []string {
 	for i, e := range evs {
 		if strings.HasPrefix(e.kind, "h:") {
 			k := e.kind[2:]
-			lines = append(lines, fmt.Sprintf("h %s %d %d", k, e.tid, e.a))
+			if e.s != "" {
+				lines = append(lines, fmt.Sprintf("h %s %d %d %s", k, e.tid, e.a, e.s))
+			} else {
+				lines = append(lines, fmt.Sprintf("h %s %d %d", k, e.tid, e.a))
+			}
 			t := taskSpec{}
 			if e.tid >= 0 && e.tid < len(sc.Tasks) {
 				t = sc.Tasks[e.tid]
@@ -738,6 +1027,10 @@ func canon(sc *scenario, res *runResult) []string {
 					lines = append(lines, fmt.Sprintf("t %d doneagain", e.tid))
 				} else {
 					d.pending++
+				}
+			case "quiet":
+				if f := strings.Fields(e.s); len(f) >= 1 {
+					lines = append(lines, fmt.Sprintf("q %d %s", e.a, f[0]))
 				}
 			case "shutdown-call":
 				sawShutdownCall = true
@@ -773,11 +1066,27 @@ func canon(sc *scenario, res *runResult) []string {
 			}
 			continue
 		}
+		if strings.HasPrefix(e.kind, "m:") {
+			switch k := e.kind[2:]; k {
+			case "mcheck", "timeout":
+				lines = append(lines, fmt.Sprintf("m %d %s %d", e.b, k, e.a))
+			default:
+				lines = append(lines, fmt.Sprintf("m %d %s", e.b, k))
+			}
+			continue
+		}
 		tid := tidAt(e.g, i)
+		if e.kind == "stopchk" && tid < 0 {
+			continue // a stop check by somebody else (stop function, …): only its read of the counter (mcheck) is ours
+		}
 		if tid < 0 {
 			tid = 999999
 		}
 		switch e.kind {
+		case "stopchk":
+			lines = append(lines, fmt.Sprintf("t %d stopchk", tid))
+		case "begin":
+			lines = append(lines, fmt.Sprintf("t %d begin %d", tid, e.a))
 		case "submit":
 			lines = append(lines, fmt.Sprintf("t %d submit %s", tid, map[int64]string{0: "m", 1: "l"}[e.a]))
 		case "hinc", "tmoenq", "dec":
@@ -789,7 +1098,7 @@ func canon(sc *scenario, res *runResult) []string {
 			if tid < len(sc.Tasks) && sc.Tasks[tid].Var != 2 {
 				out = sc.Tasks[tid].Out
 			}
-			lines = append(lines, fmt.Sprintf("t %d moddec %d", tid, out))
+			lines = append(lines, fmt.Sprintf("t %d moddec %d %d", tid, out, e.a))
 			if tid < len(sc.Tasks) && sc.Tasks[tid].Var == 2 {
 				d := ds[tid]
 				if d == nil {
@@ -826,7 +1135,7 @@ func canon(sc *scenario, res *runResult) []string {
 	}
 	lines = append(lines, fmt.Sprintf("h final %d %s settle=%s parkedms=%d shutms=%d status:%s", res.finalCnt, strings.Join(ms, ","),
 		settle, res.parkedMs, res.shutMs, strings.ReplaceAll(res.status, " ", ";")))
-	lines = append(lines, fmt.Sprintf("end %d %d", res.finalCnt, modSum))
+	lines = append(lines, fmt.Sprintf("end %d %d %s", res.finalCnt, modSum, strings.Join(ms, ",")))
 	return lines
 }
 
@@ -841,7 +1150,7 @@ func (execT) Do(line string) string {
 		return "bad-op"
 	}
 	switch f[0] {
-	case "scn", "lim", "new", "t", "s", "h", "shutdown", "end":
+	case "scn", "lim", "new", "t", "s", "m", "q", "h", "shutdown", "end":
 		return "ok"
 	case "child-failed", "boot-failed", "hook-order-broken":
 		return "HARNESS-ERROR " + line
@@ -882,6 +1191,7 @@ const (
 	sigStop     = "C15:shutdown-held-up-after-all-finished"
 	sigCrash    = "C15:start-variant-on-nil-module-crashes-the-process"
 	sigHang     = "C15:submitted-microtasks-never-returned"
+	sigModStop  = "C15:module-stop-held-up-after-all-finished"
 )
 
 func effDelay(t taskSpec) time.Duration {
@@ -921,6 +1231,11 @@ func monitor(c hxlib.Case, outs []string) []hxlib.Violation {
 	running := map[int]bool{} // medium/low tasks inside their function / signalled section
 	highActive := map[int]bool{}
 	callAt := make([]int64, n)
+	called := make([]bool, n)
+	endAt := make([]int64, n)
+	ended := make([]bool, n)
+	stopCallAt := map[int]int64{}
+	stopTmoMs := int64(0) // the module stop timeout in force (0: the default of one minute, never waited out here)
 	shutdownBegun := false
 	maxML := 0
 	zeroSignalCalled := false // has a medium/low Signal*MicroTask(0) call been made so far?
@@ -941,7 +1256,7 @@ func monitor(c hxlib.Case, outs []string) []hxlib.Violation {
 			return []hxlib.Violation{{Sig: sigCrash, What: "the process running the scenario died: " + strings.Join(f[4:], " "), Lines: c.Lines}}
 		}
 		if f[1] == "hang" {
-			return []hxlib.Violation{{Sig: sigHang, What: "20 s after submission not all microtask calls had returned (max delays of one hour: nothing was admitted any more)", Lines: c.Lines}}
+			return []hxlib.Violation{{Sig: sigHang, What: "long after submission (20 s; lifecycle scenarios: 20 s at a quiescence point / 60 s overall) not every submitted microtask had been executed and had returned (max delays of one hour: nothing was admitted any more, or a function was never run)", Lines: c.Lines}}
 		}
 		if f[1] == "final" {
 			cnt, _ := strconv.ParseInt(f[2], 10, 64)
@@ -983,6 +1298,63 @@ func monitor(c hxlib.Case, outs []string) []hxlib.Violation {
 			shutdownBegun = true
 			continue
 		}
+		switch f[1] {
+		case "settmo":
+			stopTmoMs = a
+			continue
+		case "quiet":
+			// everything submitted so far has finished: "the global and per-module running counts are zero again"
+			if a != 0 {
+				add(sigCount, fmt.Sprintf("all microtasks submitted so far have finished (mid-scenario quiescence), yet the global count is %d", a))
+			}
+			if len(f) > 4 {
+				for i, s := range strings.Split(f[4], ",") {
+					if s != "0" {
+						add(sigMod, fmt.Sprintf("all microtasks submitted so far have finished (mid-scenario quiescence), yet module %d has a microtask count of %s", i, s))
+					}
+				}
+			}
+			for _, kv := range f[4:] {
+				if strings.HasPrefix(kv, "settle=") && kv != "settle=ok" {
+					add(sigSettle, "counter/queues/scheduler did not settle within 15s (mid-scenario quiescence): "+kv[7:])
+				}
+			}
+			continue
+		case "modstop-call":
+			stopCallAt[tid] = a
+			continue
+		case "modstop-ret":
+			// "module stops are not held up": a stop that lasted as long as the stop timeout has waited the timeout
+			// out; that is only justified while a microtask of the module (or the stop function submitting one) is
+			// still busy. Judged only if every microtask of the module called so far ended at least
+			// max(timeout/2, 1 s) before the timeout expired (tolerance in the implementation's favour).
+			c0, ok := stopCallAt[tid]
+			if !ok || stopTmoMs <= 0 || a-c0 < stopTmoMs*1000 {
+				continue
+			}
+			margin := stopTmoMs * 1000 / 2
+			if margin < 1000000 {
+				margin = 1000000
+			}
+			busy, last := false, int64(-1)
+			for i, t := range sc.Tasks {
+				if t.Mod < 0 || t.Mod%3 != tid || !called[i] {
+					continue
+				}
+				if !ended[i] {
+					busy = true
+				} else if endAt[i] > last {
+					last = endAt[i]
+				}
+			}
+			if !busy && last+margin <= c0+stopTmoMs*1000 {
+				add(sigModStop, fmt.Sprintf("stop of module %d took %d ms = the whole stop timeout (%d ms) although every microtask of the module had finished %d ms before the timeout expired (last one ended %d µs after the scenario began, the stop was called at %d µs)",
+					tid, (a-c0)/1000, stopTmoMs, (c0+stopTmoMs*1000-last)/1000, last, c0))
+			}
+			continue
+		case "modstart-call", "modstart-ret":
+			continue
+		}
 		if tid < 0 || tid >= n {
 			continue
 		}
@@ -990,6 +1362,7 @@ func monitor(c hxlib.Case, outs []string) []hxlib.Violation {
 		switch f[1] {
 		case "call":
 			callAt[tid] = a
+			called[tid] = true
 			if t.Var == 2 && t.Prio != 2 && t.DelayMs == 0 {
 				zeroSignalCalled = true
 			}
@@ -1021,6 +1394,7 @@ func monitor(c hxlib.Case, outs []string) []hxlib.Violation {
 			}
 		case "fnend":
 			delete(running, tid)
+			endAt[tid], ended[tid] = a, true
 			if t.Prio == 2 && t.Var != 0 {
 				delete(highActive, tid) // Start*/Signal* high: nothing later tells us; the function end does
 			}
@@ -1048,6 +1422,9 @@ func monitor(c hxlib.Case, outs []string) []hxlib.Violation {
 		want := 1
 		if t.Mod < 0 {
 			want = 0
+		}
+		if !called[i] {
+			continue // never submitted (a lifecycle script that was cut short): nothing to judge
 		}
 		if execs[i] != want {
 			add(sigOnce, fmt.Sprintf("task %d (%+v) was executed %d times, expected %d", i, t, execs[i], want))
@@ -1191,7 +1568,163 @@ func floodScenario(r *hxlib.Run, prio int) *scenario {
 	return sc
 }
 
+// lifeScenario builds a module lifecycle scenario (run in a child process with module management on).
+//
+// modstop: the limit is used up by long-running microtasks of other modules (max delay: never), no shutdown, no
+// high-priority task; then medium/low microtasks are submitted on a module that is *stopping* (by its stop
+// function, or from outside while the stop is in progress) or that is *stopped and not restarted*. A module
+// stop is not the shutdown: the limit holds for these microtasks like for any other.
+//
+// stoptmo: a short module stop timeout and a microtask of the module (any priority and variant, running before
+// the stop or started by the stop function) that outlives it: the stop takes its timeout branch, the microtask
+// finishes later (optionally after the module was restarted already). Then everything has finished — all
+// counts must be exactly zero — and a further stop of the idle module must not be held up.
+func lifeScenario(r *hxlib.Run, class string) *scenario {
+	rng := r.Rng
+	sc := &scenario{Class: class, Seed: rng.Int63(), Force: forcing{Prob: map[string]int{}, MaxUs: 200}, StopSubs: make([][]int, 3)}
+	if rng.Intn(3) == 0 {
+		for _, p := range []string{"sched-granted", "conclude", "concluded", "pre-inc", "sched-loop"} {
+			sc.Force.Prob[p] = rng.Intn(40)
+		}
+	}
+	addTask := func(t taskSpec) int { sc.Tasks = append(sc.Tasks, t); return len(sc.Tasks) - 1 }
+	addSub := func(tids ...int) int { sc.Subs = append(sc.Subs, tids); return len(sc.Subs) - 1 }
+	op := func(o string, n int) { sc.Life = append(sc.Life, lifeOp{o, n}) }
+	task := func(prio, mod, runUs int) taskSpec { // max delay: never
+		t := taskSpec{Prio: prio, Var: rng.Intn(3), Mod: mod, RunUs: runUs, DelayMs: -1}
+		if t.Var != 2 {
+			t.Out = []int{0, 0, 1, 2}[rng.Intn(4)]
+		} else {
+			t.Dones = 1 + rng.Intn(3)
+			if t.Conc = rng.Intn(3) == 0; t.Conc {
+				t.Dones = 2 + rng.Intn(3)
+			}
+		}
+		return t
+	}
+	switch class {
+	case "modstop":
+		sc.Lim = 2 + rng.Intn(3)
+		b := 1 + rng.Intn(2) // the module that is stopped
+		hold := 40000 + rng.Intn(40000)
+		op("settmo", 5000)
+		variant := rng.Intn(3)
+		if variant == 1 { // stopped and not restarted: its stop flag stays set
+			op("stop", b)
+		}
+		// one of the long-running microtasks may belong to the stopping module itself: the stop has to wait for it and
+		// is completed by the check that microtask's conclusion makes
+		own := -1
+		if variant != 1 && rng.Intn(2) == 0 {
+			own = rng.Intn(sc.Lim)
+		}
+		for i := 0; i < sc.Lim; i++ { // use the limit up
+			other := []int{0, 3 - b}[rng.Intn(2)]
+			if i == own {
+				other = b
+			}
+			op("sub", addSub(addTask(task(rng.Intn(2), other, hold+rng.Intn(10000)))))
+		}
+		op("waitrun", sc.Lim)
+		mk := func() int {
+			t := task(rng.Intn(2), b, 500+rng.Intn(3000))
+			return addTask(t)
+		}
+		n := 1 + rng.Intn(3)
+		switch variant {
+		case 0: // submitted by the stop function of the stopping module
+			for i := 0; i < n; i++ {
+				sc.StopSubs[b] = append(sc.StopSubs[b], mk())
+			}
+			op("stop", b)
+		case 1: // submitted from outside to the stopped module
+			for i := 0; i < n; i++ {
+				op("sub", addSub(mk()))
+			}
+		case 2: // both, the outside submitters race with the stop
+			for i := 0; i < n; i++ {
+				sc.StopSubs[b] = append(sc.StopSubs[b], mk())
+			}
+			for i := 1 + rng.Intn(2); i > 0; i-- {
+				op("sub", addSub(mk()))
+			}
+			op("stop", b)
+		}
+		op("quiet", 0)
+		op("start", b)
+		var sub []int
+		for i := 2 + rng.Intn(4); i > 0; i-- { // ordinary traffic after the restart
+			sub = append(sub, addTask(task(rng.Intn(2), rng.Intn(3), rng.Intn(800))))
+		}
+		op("sub", addSub(sub...))
+		op("quiet", 0)
+	case "stoptmo":
+		sc.Lim = 2 + rng.Intn(5)
+		b := rng.Intn(3)
+		tmo := 50 + rng.Intn(50)
+		op("settmo", tmo)
+		over := func() int { return (tmo + 40 + rng.Intn(80)) * 1000 } // outlives the stop timeout
+		n := 1 + rng.Intn(2)
+		how := rng.Intn(3)
+		if how != 1 { // running before the stop begins
+			for i := 0; i < n; i++ {
+				op("sub", addSub(addTask(task(rng.Intn(3), b, over()))))
+			}
+			op("waitrun", n)
+		}
+		if how != 0 { // started by the stop function (a Run*/Signal* variant keeps the stop function itself busy)
+			for i := 0; i < n; i++ {
+				sc.StopSubs[b] = append(sc.StopSubs[b], addTask(task(rng.Intn(3), b, over()/n)))
+			}
+		}
+		var by []int
+		for i := rng.Intn(4); i > 0; i-- { // bystanders on the other modules
+			by = append(by, addTask(task(rng.Intn(3), (b+1+rng.Intn(2))%3, rng.Intn(2000))))
+		}
+		if len(by) > 0 {
+			op("sub", addSub(by...))
+		}
+		op("stop", b) // takes the timeout branch
+		early := rng.Intn(2) == 0
+		if early { // restarted while microtasks of the previous run are still in flight
+			op("start", b)
+			var more []int
+			for i := rng.Intn(3); i > 0; i-- {
+				more = append(more, addTask(task(rng.Intn(3), b, rng.Intn(1500))))
+			}
+			if len(more) > 0 {
+				op("sub", addSub(more...))
+			}
+		}
+		op("quiet", 0) // everything has finished: all counts are zero again
+		op("settmo", 3000)
+		if !early {
+			op("start", b)
+		}
+		op("stop", b) // nothing is running: must not be held up
+		op("start", b)
+		var again []int
+		for i := 1 + rng.Intn(3); i > 0; i-- {
+			again = append(again, addTask(task(rng.Intn(3), b, rng.Intn(1500))))
+		}
+		op("sub", addSub(again...))
+		op("quiet", 0)
+		if rng.Intn(3) == 0 {
+			op("shutdown", 0)
+		}
+	}
+	return sc
+}
+
 func count(r *hxlib.Run, sc *scenario, lines []string) {
+	for _, o := range sc.Life {
+		r.Count("life:" + o.Op)
+	}
+	for _, ss := range sc.StopSubs {
+		if len(ss) > 0 {
+			r.Count("life:stop-function-submits")
+		}
+	}
 	r.Count("class:" + sc.Class)
 	r.Count(fmt.Sprintf("limit:%d", sc.Lim))
 	switch n := len(sc.Tasks); {
@@ -1304,6 +1837,7 @@ func childMain() {
 		fmt.Println("child: bad scenario:", err)
 		os.Exit(3)
 	}
+	lifeMode = len(sc.Life) > 0
 	if err := boot(); err != nil {
 		fmt.Println("child: boot:", err)
 		os.Exit(3)
@@ -1318,6 +1852,7 @@ func childMain() {
 }
 
 var extra = map[string]any{}
+var dumpN int
 var extraMu sync.Mutex
 
 func gen(r *hxlib.Run, emit func(hxlib.Case)) {
@@ -1337,17 +1872,29 @@ func gen(r *hxlib.Run, emit func(hxlib.Case)) {
 		return
 	}
 	stop := false
+	lifeBroken := false
 	emitScn := func(sc *scenario) {
 		if stop {
 			return
 		}
 		var lines []string
-		if sc.Class == "shutdown" || sc.Class == "nilstart" {
+		if len(sc.Life) > 0 && lifeBroken {
+			return // an earlier lifecycle scenario hung or did not settle: each further one would take as long to say the same
+		}
+		if sc.Class == "shutdown" || sc.Class == "nilstart" || len(sc.Life) > 0 {
 			var err error
 			lines, err = runInChild(sc)
 			if err != nil {
 				b, _ := json.Marshal(sc)
 				lines = []string{"scn " + string(b), "h crash -1 0 " + strings.ReplaceAll(err.Error(), " ", "_")}
+			}
+			if len(sc.Life) > 0 {
+				for _, l := range lines {
+					if strings.HasPrefix(l, "h hang") || strings.HasPrefix(l, "h crash") ||
+						((strings.HasPrefix(l, "h quiet") || strings.HasPrefix(l, "h final")) && strings.Contains(l, "settle=") && !strings.Contains(l, "settle=ok")) {
+						lifeBroken = true
+					}
+				}
 			}
 		} else {
 			res := runScenario(sc)
@@ -1360,6 +1907,10 @@ func gen(r *hxlib.Run, emit func(hxlib.Case)) {
 					stop = true
 				}
 			}
+		}
+		if d := os.Getenv("HX_C15_DUMP"); d != "" { // debugging aid: every trace as a file
+			dumpN++
+			_ = os.WriteFile(fmt.Sprintf("%s/%04d-%s.txt", d, dumpN, sc.Class), []byte(strings.Join(lines, "\n")+"\n"), 0o644)
 		}
 		count(r, sc, lines)
 		grants := 0
@@ -1387,6 +1938,13 @@ func gen(r *hxlib.Run, emit func(hxlib.Case)) {
 		emitScn(floodScenario(r, 1))
 		return
 	}
+	if os.Getenv("HX_C15_ONLY") == "life" { // debugging aid
+		for i := 0; i < 12; i++ {
+			emitScn(lifeScenario(r, "modstop"))
+			emitScn(lifeScenario(r, "stoptmo"))
+		}
+		return
+	}
 	// regression scenarios first
 	emitScn(&scenario{Class: "default", Lim: 2, Seed: 1, Force: forcing{Prob: map[string]int{}, MaxUs: 100},
 		Tasks: []taskSpec{{Prio: 0, Var: 2, Mod: 0, RunUs: 3000, Dones: 1}, {Prio: 0, Var: 2, Mod: 0, RunUs: 3000, Dones: 2},
@@ -1398,6 +1956,8 @@ func gen(r *hxlib.Run, emit func(hxlib.Case)) {
 	floods := r.Budget(2, 6)
 	shutdowns := r.Budget(40, 250)
 	nilstarts := r.Budget(8, 40)
+	modstops := r.Budget(14, 80)
+	stoptmos := r.Budget(14, 80)
 	for i := 0; i < nScn && time.Now().Before(deadline) && !stop; i++ {
 		class := "noexpiry"
 		switch x := r.Rng.Intn(100); {
@@ -1410,6 +1970,14 @@ func gen(r *hxlib.Run, emit func(hxlib.Case)) {
 		if i%60 == 3 && nilstarts > 0 {
 			nilstarts--
 			emitScn(genScenario(r, "nilstart"))
+		}
+		if i%60 == 11 && modstops > 0 {
+			modstops--
+			emitScn(lifeScenario(r, "modstop"))
+		}
+		if i%60 == 41 && stoptmos > 0 {
+			stoptmos--
+			emitScn(lifeScenario(r, "stoptmo"))
 		}
 		if i%40 == 7 && shutdowns > 0 {
 			shutdowns--
@@ -1437,7 +2005,7 @@ func main() {
 	}
 	hxlib.Main(&hxlib.Harness{
 		Prop:     "C15",
-		Rule:     "a case is one scenario (limit 2..8 or below the minimum, 1..16 submitting goroutines, 1..120 microtasks of every priority and variant incl. nil module, run times 0..3ms, nil/error/panic outcomes, 1..4 done() calls sequential or concurrent, max delays never/default/1..3ms, forced delays at the verif yield points, shutdown in a child process, queue flood) executed on the real scheduler; its hook trace is replayed through the Lean model (acceptor, counter values compared at every bracketed operation) and the monitor checks limit / exactly-once / returned error / zero counters / settled scheduler on the harness's own observations; non-trivial = at least two tasks and at least one clearance granted (or expiries); distinct = different scenario or different interleaving (hash of the whole trace)",
+		Rule:     "a case is one scenario (limit 2..8 or below the minimum, 1..16 submitting goroutines, 1..120 microtasks of every priority and variant incl. nil module, run times 0..3ms, nil/error/panic outcomes, 1..4 done() calls sequential or concurrent, max delays never/default/1..3ms, forced delays at the verif yield points, shutdown in a child process, queue flood; module lifecycle scenarios in child processes with module management: class modstop = the limit used up by long microtasks (one of them possibly of the stopping module), then medium/low microtasks submitted by the stop function of a stopping module and/or from outside to a stopping or stopped-and-not-restarted module, restart, more traffic; class stoptmo = stop timeout 50..100 ms, microtasks of any priority/variant running before the stop or started by the stop function outlive it, optional restart while they are in flight, quiescence, a further stop of the idle module under a 3 s timeout, restart, optional shutdown) executed on the real scheduler; its hook trace is replayed through the Lean model (acceptor: global counter and each module's counter compared at every bracketed operation, every task and every module followed individually, the stop check's read of the module counter compared with the model) and the monitor checks limit / exactly-once / returned error / zero counters (at the end and at every mid-scenario quiescence) / settled scheduler / module stops and shutdown not held up on the harness's own observations; non-trivial = at least two tasks and at least one clearance granted (or expiries); distinct = different scenario or different interleaving (hash of the whole trace)",
 		Generate: gen,
 		NewExec:  func(*hxlib.Run) hxlib.Exec { return execT{} },
 		Monitor:  monitor,
